@@ -71,6 +71,7 @@ type hist struct {
 	handlers []api.StreamReceiverFilterHandler
 	recvCall []int
 	sendCall []int
+	slept    []bool
 	cluster  string
 	listener string
 }
@@ -172,15 +173,26 @@ func (u *upStream) ID() uint64               { return uint64(u.k) }
 func (u *upStream) GetStream() types.Stream  { return u }
 func (u *upStream) AppendHeaders(ctx context.Context, headers api.HeaderMap, end bool) error {
 	u.h.add(Rec{Kind: "up.hdr", K: u.k, End: end})
+	u.sent(end)
 	return nil
 }
 func (u *upStream) AppendData(ctx context.Context, data buffer.IoBuffer, end bool) error {
 	u.h.add(Rec{Kind: "up.data", K: u.k, End: end})
+	u.sent(end)
 	return nil
 }
 func (u *upStream) AppendTrailers(ctx context.Context, trailers api.HeaderMap) error {
 	u.h.add(Rec{Kind: "up.trl", K: u.k})
+	u.sent(true)
 	return nil
+}
+
+// a one-way request has no response: the client stream is finished as soon as the request is written
+func (u *upStream) sent(end bool) {
+	if end && u.receiver == nil {
+		atomic.StoreUint32(&u.done, 1)
+		u.BaseStream.DestroyStream()
+	}
 }
 
 // called by the proxy (upstreamRequest.resetStream): local reset
@@ -244,14 +256,21 @@ func (d *downSender) AppendHeaders(ctx context.Context, headers api.HeaderMap, e
 		}
 	}
 	d.h.add(Rec{Kind: "down.hdr", End: end, Code: code, Aux: kind})
+	if end {
+		d.BaseStream.DestroyStream() // the server stream is gone once the reply is complete (later resets do not reach the proxy)
+	}
 	return nil
 }
 func (d *downSender) AppendData(ctx context.Context, data buffer.IoBuffer, end bool) error {
 	d.h.add(Rec{Kind: "down.data", End: end})
+	if end {
+		d.BaseStream.DestroyStream()
+	}
 	return nil
 }
 func (d *downSender) AppendTrailers(ctx context.Context, trailers api.HeaderMap) error {
 	d.h.add(Rec{Kind: "down.trl"})
+	d.BaseStream.DestroyStream()
 	return nil
 }
 
@@ -304,6 +323,7 @@ type fakeConn struct {
 	id             uint64
 	ssc            *scriptServerConn
 	listeners      []api.ConnectionEventListener
+	closed         uint32
 }
 
 func (c *fakeConn) ID() uint64          { return c.id }
@@ -314,6 +334,13 @@ func (c *fakeConn) AddConnectionEventListener(l api.ConnectionEventListener) {
 	c.listeners = append(c.listeners, l)
 }
 func (c *fakeConn) RawConn() net.Conn { return nil }
+func (c *fakeConn) closeEvent() {
+	if atomic.CompareAndSwapUint32(&c.closed, 0, 1) {
+		for _, l := range c.listeners {
+			l.OnEvent(api.RemoteClose)
+		}
+	}
+}
 
 type fakeReadCb struct {
 	api.ReadFilterCallbacks
@@ -371,6 +398,17 @@ func (f *recvFilter) OnReceive(ctx context.Context, headers api.HeaderMap, buf b
 		v = vs[n]
 	}
 	h.add(Rec{Kind: "filter.recv", K: f.idx, Code: int(f.handler.GetFilterCurrentPhase()), Aux: v})
+	if d := h.spec.Filters[f.idx].DelayMs; d > 0 {
+		h.mu.Lock()
+		first := !h.slept[f.idx]
+		h.slept[f.idx] = true
+		h.mu.Unlock()
+		if first {
+			h.add(Rec{Kind: "filter.sleep", K: f.idx})
+			time.Sleep(time.Duration(d) * time.Millisecond)
+			h.add(Rec{Kind: "filter.wake", K: f.idx})
+		}
+	}
 	code := h.spec.Filters[f.idx].Code
 	switch v {
 	case "stop":
@@ -413,6 +451,17 @@ func (f *sendFilter) Append(ctx context.Context, headers api.HeaderMap, buf buff
 		v = vs[n]
 	}
 	h.add(Rec{Kind: "filter.send", K: f.idx, Aux: v})
+	if d := h.spec.Filters[f.idx].DelayMs; d > 0 {
+		h.mu.Lock()
+		first := !h.slept[f.idx]
+		h.slept[f.idx] = true
+		h.mu.Unlock()
+		if first {
+			h.add(Rec{Kind: "filter.sleep", K: f.idx})
+			time.Sleep(time.Duration(d) * time.Millisecond)
+			h.add(Rec{Kind: "filter.wake", K: f.idx})
+		}
+	}
 	switch v {
 	case "stop":
 		return api.StreamFilterStop
